@@ -726,8 +726,31 @@ fn build_app(t: &TNode) -> Node<'static, SimDevice> {
     }
 }
 
-/// Build (and leak) the real command tree for a description.
+struct SharedTree(&'static Node<'static, SimDevice>);
+// The tree only holds `&'static` references to stateless handlers (SimHandler { id } and the
+// crate's unit-struct commands); sharing it between worker threads is sound.
+unsafe impl Send for SharedTree {}
+unsafe impl Sync for SharedTree {}
+
+static TREE_CACHE: std::sync::Mutex<Option<std::collections::HashMap<u64, Vec<(TreeDesc, SharedTree)>>>> = std::sync::Mutex::new(None);
+
+/// Build (and leak) the real command tree for a description; identical descriptions share one
+/// tree (bounded leak).
 pub fn build_tree(desc: &TreeDesc) -> &'static Node<'static, SimDevice> {
+    let key = crate::rng::fnv1a(serde_json::to_string(desc).unwrap_or_default().as_bytes());
+    let mut guard = TREE_CACHE.lock().unwrap();
+    let map = guard.get_or_insert_with(std::collections::HashMap::new);
+    if let Some(v) = map.get(&key) {
+        if let Some((_, t)) = v.iter().find(|(d, _)| d == desc) {
+            return t.0;
+        }
+    }
+    let t = build_tree_uncached(desc);
+    map.entry(key).or_default().push((desc.clone(), SharedTree(t)));
+    t
+}
+
+fn build_tree_uncached(desc: &TreeDesc) -> &'static Node<'static, SimDevice> {
     let mut v: Vec<Node<'static, SimDevice>> = Vec::new();
     if desc.mandated {
         for n in MANDATED {
